@@ -229,6 +229,26 @@ def run(ctx):
     common.version_group_setters_total(ctx, 'C07.R2')
     common.entity_getters_hand_out_copies(ctx, 'C07.R4')
     ctx.borrow('C02', {'C02.R1'}, 'C07.R3', why='content and MdibVersion change together')
+    ctx.borrow('C11', {'C11.R1'}, 'C07.R1', contains=['roll-back'], why='a rejected insert leaves the lookups of the committed states intact')
+    # ... in that order: a commit that fails half-way (a unique index rejects the second state) leaves the part it applied under
+    # the NEW MdibVersion - never new content under the version that earlier answers already stated
+    n_ord = 0
+    for q_, fi_ in sorted(repo.funcs.items()):
+        if fi_.name != 'process_transaction' or not q_.startswith('sdc11073.mdib.transactions.'):
+            continue
+        go = cfg_of(fi_)
+        vs = [n_ for n_ in go.real_nodes() if n_.kind == 'stmt' and isinstance(n_.stmt, ast.Assign) and
+              any(unparse(t).endswith('_mdib.mdib_version') for t in n_.stmt.targets)]
+        eff = [n_ for n_, c_ in go.nodes_calling('_handle_state_updates')]
+        if not vs or not eff:
+            continue
+        n_ord += 1
+        late = [e for e in eff if not any(go.dominates(v, e) for v in vs)]
+        ctx.ob('C07.R3', f'{fi_.cls.name}.process_transaction: version before table effects', not late,
+               f'{fi_.cls.name}.process_transaction raises the MdibVersion before it touches the state tables' if not late else
+               f'{fi_.cls.name}.process_transaction changes the state tables before it raises the MdibVersion: when the commit fails '
+               f'after the first state, Get responses before and after state the same MdibVersion with different content', fi=fi_)
+    ctx.floor('C07.R3', n_ord, 5, 'state transactions with a version store and table effects')
     # writing a container into a response tree changes nothing on the container: the serialisers of the MDIB containers store no
     # attribute (except a missing one they fill once: `if self.X is None: self.X = ..`) and call none of their own mutators
     n_ser = 0
